@@ -286,3 +286,54 @@ Definition run_check_intermediate_rfc (a : list N) : list N :=
       [1; if Nat.eqb (length C) (N.to_nat (cL p)) &&
              forallb (fun rd => vec_eqb (lincomb fmul Tn (fst rd) C) (snd rd)) (combine A D) then 1 else 0]
   end.
+
+(* ---- RFC relations checked directly on given intermediate symbols, for ANY block size, in O(L) map operations:
+   the RFC's own statements "D[b] = D[b] + C[i]" for the LDPC relations (5.3.3.3) accumulated per relation, and
+   Enc[K', C, Tuple[K', i]] = source symbol i (zero for padding) for every i < K'; parameters from the RFC snapshot.
+   HDPC relations are not checked here (certificates and the dense check cover them).
+   [K, T, data(K*T), C(L*T)] -> 1 if all hold and |C| = L *)
+Definition pm_of_list (l : list (list N)) : PositiveMap.t (list N) :=
+  snd (fold_left (fun st x => let '(i, m) := st in (i + 1, PositiveMap.add (N.succ_pos i) x m)) l (0, PositiveMap.empty (list N))).
+Definition pm_get (T : nat) (m : PositiveMap.t (list N)) (i : N) : list N :=
+  match PositiveMap.find (N.succ_pos i) m with Some x => x | None => repeat 255 T end.
+Definition pm_xor (T : nat) (m : PositiveMap.t (list N)) (i : N) (v : list N) : PositiveMap.t (list N) :=
+  PositiveMap.add (N.succ_pos i) (vxor (match PositiveMap.find (N.succ_pos i) m with Some x => x | None => repeat 0 T end) v) m.
+
+(* linear-time chunking (Model.Layout.chunks is quadratic on long lists) *)
+Fixpoint chunks_lin (fuel : nat) (t : nat) (l : list N) : list (list N) :=
+  match fuel with
+  | O => []
+  | S f => match l with [] => [] | _ => firstn t l :: chunks_lin f t (skipn t l) end
+  end.
+
+Definition run_check_rows_rfc (a : list N) : list N :=
+  let K := argn a 0 in let T := argn a 1 in
+  let Tn := N.to_nat T in
+  match spec_params K with
+  | None => [0; 0]
+  | Some p =>
+      let syms := chunks_lin (N.to_nat K) Tn (firstn (N.to_nat (K * T)) (skipn 2 a)) in
+      let Cl := chunks_lin (S (N.to_nat (cL p))) Tn (skipn (2 + N.to_nat (K * T)) a) in
+      let C := pm_of_list Cl in
+      let S := cS p in let B := cB p in let W := cW p in let P := cP p in
+      (* LDPC relations, accumulated as the RFC states them *)
+      let acc1 := fold_left (fun m i =>
+                    let a0 := 1 + i / S in
+                    let b0 := i mod S in let b1 := (b0 + a0) mod S in let b2 := (b1 + a0) mod S in
+                    let ci := pm_get Tn C i in
+                    pm_xor Tn (pm_xor Tn (pm_xor Tn m b0 ci) b1 ci) b2 ci)
+                  (rangeN (N.to_nat B)) (PositiveMap.empty (list N)) in
+      let acc2 := fold_left (fun m i =>
+                    pm_xor Tn (pm_xor Tn (pm_xor Tn m i (pm_get Tn C (B + i))) i (pm_get Tn C (W + i mod P)))
+                           i (pm_get Tn C (W + (i + 1) mod P)))
+                  (rangeN (N.to_nat S)) acc1 in
+      let zero := repeat 0 Tn in
+      let ldpc_ok := forallb (fun i => vec_eqb (pm_get Tn acc2 i) zero) (rangeN (N.to_nat S)) in
+      (* LT relations *)
+      let symm := pm_of_list syms in
+      let enc_ok := forallb (fun i =>
+                      let want := if i <? K then pm_get Tn symm i else zero in
+                      let got := fold_left (fun acc j => vxor acc (pm_get Tn C j)) (Enc_indices p (Tuple_of p i)) zero in
+                      vec_eqb got want) (rangeN (N.to_nat (cK p))) in
+      [1; if Nat.eqb (length Cl) (N.to_nat (cL p)) && ldpc_ok && enc_ok then 1 else 0]
+  end.
